@@ -13,3 +13,4 @@ import RosuModel.Props.C04Decoded
 import RosuModel.Props.C04Ieee
 import RosuModel.Props.C04DecodedIeee
 import RosuModel.Props.C04DecodedObjects
+import RosuModel.Props.C04DecodedObjectsToy
